@@ -608,6 +608,11 @@ def sites_reaching(body, pats, lift=True):
             continue
         if any(c in reach for c in closure_operands(body, t)):
             res.append(bi)
+            continue
+        # a function item handed to a combinator stands for its call (`.and_then(Weak::upgrade)`)
+        fns = [a['fn'] for a in t.get('a', []) if isinstance(a, dict) and 'fn' in a]
+        if any(call_matches({'f': n, 'r': n}, pats) or n in reach for n in fns):
+            res.append(bi)
     return res
 
 
@@ -1457,6 +1462,26 @@ def closure_use_sites(F, cl):
         return []
     direct = F.body(re.sub(r'::\{closure#\d+\}$', '', cl.path)) or pb
     return [(direct, bi) for bi, t in direct.calls() if bi in direct.normal_blocks() and cl.path in closure_operands(direct, t)]
+
+
+def entry_point_of(F, path, recorded, depth=3):
+    """the function a site is NAMED after in a finding key. A recorded finding keeps its identity when the code around the site is
+    moved into a private helper: if `path` is a private, non-closure function whose chain of single callers reaches a function that a
+    recorded finding of the same rule names (`recorded`), the site is named after that function. Anything else keeps its own name (a
+    site in a function that no record reaches through single callers is a different violation and is reported)."""
+    own = strip_closures(path)
+    cur = own
+    for _ in range(depth):
+        if cur in recorded:
+            return cur
+        b = F.body(cur)
+        if b is None or str(b.d.get('vis')) == 'Public':
+            break
+        callers = set(strip_closures(c) for c in F.callers(cur)) - {cur}
+        if len(callers) != 1:
+            break
+        cur = next(iter(callers))
+    return cur if cur in recorded else own
 
 
 def family(F, root):
